@@ -324,6 +324,43 @@ theorem norm_mol_plain (m : MolRec) (hp : PlainMol m) : normMol m = r32Mol m := 
   simp only [normMol, r32Mol] at *
   simp only [ha, hb, hat, hch, hmu, hnm]
 
+structure PlainEns (e : EnsRec) : Prop where
+  name : ∃ s, e.name = .str s
+  charge : ∃ i, e.charge = .int i
+  mult : ∃ i, e.mult = .int i ∧ i ≠ 0
+  attrib : ∃ l, e.attrib = .map l ∧ canonM l = true
+  atoms : ∀ a ∈ e.atoms, ∀ f, (a.get f).canon = true
+  bonds : ∀ b ∈ e.bonds, ∀ f, (b.get f).canon = true
+
+/-- the same for ensembles: without Python lists in attributes only the float arrays change, through float32 -/
+theorem norm_ens_plain (e : EnsRec) (hp : PlainEns e) : normEns e = r32Ens e := by
+  obtain ⟨s, hs⟩ := hp.name
+  obtain ⟨c, hc⟩ := hp.charge
+  obtain ⟨k, hk, hk0⟩ := hp.mult
+  obtain ⟨l, hl, hlc⟩ := hp.attrib
+  have ha : e.atoms.map normAtom = e.atoms := by
+    rw [List.map_congr_left (g := id)]
+    · simp
+    · intro a hain; apply AtomRec.ext'; intro f; simp [normAtom, N_of_canon _ (hp.atoms a hain f)]
+  have hb : e.bonds.map normBond = e.bonds := by
+    rw [List.map_congr_left (g := id)]
+    · simp
+    · intro b hbin; apply BondRec.ext'; intro f; simp [normBond, N_of_canon _ (hp.bonds b hbin f)]
+  have hat : pyOr (N e.attrib) (.map []) = e.attrib := by
+    rw [hl, N_of_canon (.map l) (by simpa [MVal.canon] using hlc)]
+    unfold pyOr MVal.falsy
+    cases l <;> simp
+  have hch : pyOr (N e.charge) (.int 0) = e.charge := by rw [hc]; exact pyOr_int c 0 (fun _ => rfl)
+  have hmu : pyOr (N e.mult) (.int 1) = e.mult := by rw [hk]; exact pyOr_int k 1 (fun h => absurd h hk0)
+  have hnm : pyName (N e.name) = e.name := by rw [hs]; rfl
+  cases e
+  simp only [normEns, r32Ens] at *
+  simp only [ha, hb, hat, hch, hmu, hnm]
+
+theorem ens_roundtrip_exact_partial (e : EnsRec) (hw : e.WF) (hno : NoOther e.atoms e.bonds) (hp : PlainEns e) :
+    deserEns deserEnsV2 (N (serEns serEnsV2 e)) = .ok (r32Ens e) := by
+  rw [ens_v2_roundtrip e hw hno, norm_ens_plain e hp]
+
 /-- the full statement: every stored object reads back identical up to float32 on the arrays -/
 def roundtrip_exact_statement : Prop :=
   ∀ m : MolRec, m.WF → NoOther m.atoms m.bonds →
